@@ -26,6 +26,9 @@ Cases ==
     {[m |-> "angles", op |-> "dirpair", k0 |-> a, e0 |-> b, k1 |-> c, e1 |-> d] :
         a \in -KPair..KPair, b \in E3, c \in -KPair..KPair, d \in E3} \cup
     {[m |-> "angles", op |-> "vec", v1 |-> v, v2 |-> w] : v \in Vecs, w \in Vecs} \cup
+    \* the same pairs with lengths of a micrometre and a kilometre: angles do not depend on the lengths
+    {[m |-> "angles", op |-> "vec", v1 |-> v, v2 |-> w, sc1 |-> -20, sc2 |-> -20] : v \in Vecs, w \in Vecs} \cup
+    {[m |-> "angles", op |-> "vec", v1 |-> v, v2 |-> w, sc1 |-> -24, sc2 |-> 10] : v \in Vecs, w \in Vecs} \cup
     {[m |-> "angles", op |-> "aint", s |-> s, x |-> x, ts |-> TestSeq] : s \in (-SNeg)..SHi, x \in XAll} \cup
     {[m |-> "angles", op |-> "aint2", s |-> s, x |-> x, others |-> OtherSeq(XS)] : s \in S2, x \in XS} \cup
     {[m |-> "angles", op |-> "sint", a |-> a, b |-> b, xs |-> CodeSeq, others |-> PairSeq] : a \in Codes, b \in Codes} \cup
